@@ -810,3 +810,42 @@ def r4(cx):
 import witness
 witness.add(RS, 'C16.R2w', ['c16_variablerefmut_value', 'c16_variablerefmut_readonly'],
             'compile-fail witness: neither the value nor the read-only mark can be written through VariableRefMut (E0594); assign() compiles')
+
+
+@RS.rule('C16.R5', 'K-PASS', 'a temporary (volatile-scope) variable always lives in the current volatile context: an existing entry is reused in place only if it belongs to that very context')
+def r5(cx):
+    F = cx.F
+    b = F.body('yash_env::variable::VariableSet::get_or_new_impl')
+    cx.fn(b.fn)
+    du = Q.DefUse(b)
+    lasts = Q.find_calls(b, ['core::slice::<impl [T]>::last'])
+    pushes = Q.find_calls(b, ['alloc::vec::Vec::<T, A>::push'])
+    cx.require(len(lasts) == 1, 'the `stack.last()` lookup of the volatile arm was not found (found %d)' % len(lasts))
+    cx.require(pushes, 'no Vec::push in get_or_new_impl')
+    start = lasts[0][0]
+    allowed = set()
+    for u in b.live_blocks():
+        ec = Q.edge_condition(F, b, du, u)
+        if not ec:
+            continue
+        org, labels = ec
+        if org['k'] != 'binop' or org['rv']['op'] not in ('Eq', 'Ne'):
+            continue
+        names = [Q.operand_name(b, du, org['rv']['a']), Q.operand_name(b, du, org['rv']['b'])]
+        one_field = any(n and n.endswith('.context_index') for n in names)
+        one_target = any(n == 'context_index' for n in names)
+        if not (one_field and one_target):
+            continue
+        for tgt, labs in labels.items():
+            for lab in labs:
+                if (org['rv']['op'] == 'Ne' and lab == ('bool', False)) or (org['rv']['op'] == 'Eq' and lab == ('bool', True)):
+                    allowed.add((u, tgt))
+    cx.site('%s: volatile arm from bb%d; %d push sites; %d "same context" edges' % (b.fn, start, len(pushes), len(allowed)))
+    if not allowed:
+        cx.violation(b.fn, 'no-same-context-test', 'the volatile arm never compares the found entry\'s context with the current context', loc=b.loc(lasts[0][1]))
+        return
+    p = b.shortest_path(start, set(b.return_blocks()), removed={blk for blk, _ in pushes}, removed_edges=allowed)
+    if p is not None:
+        cx.violation(b.fn, 'volatile-reuses-foreign-entry', 'a temporary assignment can reuse, in place, a variable that belongs to another context '
+                     '(e.g. the enclosing command\'s temporary assignment): the inner value overwrites the outer one and outlives the inner command',
+                     loc=b.loc(lasts[0][1]), path=Q.render_path(b, p))
